@@ -9,7 +9,7 @@ import itertools
 
 from ..finite import Unrecognised, ev_int
 from ..program import AnalysisError
-from ..rules import calls, is_call, is_mcall, mentions
+from ..rules import Arms, calls, is_call, is_mcall, mentions
 from ..terms import C, Evaluator, G, P, is_t, mk_elem, mk_proj, show, subterms
 
 MOD = "core/compiler/staging.py"
@@ -73,7 +73,7 @@ def flag_tables(chk, prog, props_rule="FLAG-TABLE"):
     chk.require(r.ret == ("is", F, C(False)), props_rule, "FlagOp.concrete_false", "f is False", derived=show(r.ret), expected="f is False", where=W("concrete_false"))
     # where / cond
     r = ev.eval_fn(FO.methods["where"], FO.module, FO)
-    got = {}
+    got = Arms()
     for conds, ret in r.returns:
         pos = [t for t, p in conds if p]
         if ("is", F, C(True)) in pos:
@@ -95,7 +95,7 @@ def flag_tables(chk, prog, props_rule="FLAG-TABLE"):
     chk.require(len(canon) == 1 and canon[0] in ("jax.numpy.where",), props_rule, "FlagOp.where/broadcast", "array-flag select", derived=str(canon), expected="jnp.where(f, tf, ff) - broadcasts a vector flag against scalar operands and promotes dtypes, as the concrete arms implicitly do", where=W("where"))
     chk.require(ok, props_rule, "FlagOp.where", "True -> tf, False -> ff, traced select(f, tf, ff)", derived={k: show(v) for k, v in got.items()}.__str__(), expected="tf / ff / lax.select(f, tf, ff)", where=W("where"))
     r = ev.eval_fn(FO.methods["cond"], FO.module, FO)
-    got = {}
+    got = Arms()
     A = ("star", P("args"))
     for conds, ret in r.returns:
         pos = [t for t, p in conds if p]
@@ -122,7 +122,7 @@ def choose_wrap(chk, prog):
     ri = Evaluator(prog).eval_fn(inner, m, env0={"idx": P("idx")})
     VS = P("vs")
     ch = ("call", G("jax.numpy.choose"), (P("idx"), VS), (("mode", C("wrap")),))
-    got = {}
+    got = Arms()
     for conds, ret in ri.returns:
         if any(is_t(t, "isinst") and t[1] == P("idx") and t[2] == "int" and p for t, p in conds):
             got["int"] = ret
